@@ -101,7 +101,7 @@ func (c *expCompiler) ProcesBoolExp(b ast.Bool) {
 
 // ProcessEtcExp compiles a EtcExp.
 func (c *expCompiler) ProcessEtcExp(e ast.Etc) {
-	reg := c.getEllipsisReg()
+	reg := c.getEllipsisReg(e)
 	c.emitInstr(e, ir.EtcLookup{Dst: c.dst, Etc: reg})
 }
 
@@ -230,7 +230,7 @@ var _ ast.TailExpProcessor = tailExpCompiler{}
 
 // ProcessEtcTailExp compiles an Etc tail expression.
 func (c tailExpCompiler) ProcessEtcTailExp(e ast.Etc) {
-	reg := c.getEllipsisReg()
+	reg := c.getEllipsisReg(e)
 	for i, dst := range c.dsts {
 		c.emitInstr(e, ir.EtcLookup{
 			Dst: dst,
@@ -262,7 +262,7 @@ type etcExpCompiler struct {
 var _ ast.TailExpProcessor = (*etcExpCompiler)(nil)
 
 func (c *etcExpCompiler) ProcessEtcTailExp(e ast.Etc) {
-	c.dst = c.getEllipsisReg()
+	c.dst = c.getEllipsisReg(e)
 }
 
 func (c *etcExpCompiler) ProcessFunctionCallTailExp(f ast.FunctionCall) {
@@ -372,6 +372,7 @@ func (c *compiler) compileFunctionBody(f ast.Function) {
 		c.DeclareLocal(ir.Name(p.Val), reg)
 		recvRegs[i] = reg
 	}
+	c.hasDots = f.HasDots
 	if !f.HasDots {
 		c.emitInstr(f, ir.Receive{Dst: recvRegs})
 	} else {
@@ -390,7 +391,15 @@ func (c *compiler) compileFunctionBody(f ast.Function) {
 
 }
 
-func (c *compiler) getEllipsisReg() ir.Register {
+func (c *compiler) getEllipsisReg(e ast.Etc) ir.Register {
+	if !c.hasDots {
+		// Without this check the '...' of an enclosing vararg function (or
+		// of the main chunk) would be captured as an upvalue.
+		panic(Error{
+			Where:   e,
+			Message: "cannot use '...' outside a vararg function",
+		})
+	}
 	reg, ok := c.GetRegister(ellipsisRegName)
 	if !ok {
 		panic("... not defined")
